@@ -143,6 +143,10 @@ def opt_disjoint(ctx):
         out.append(ok("true-only-through-exhaustion") if good else bad("true-only-through-exhaustion", "is_disjoint can answer true without the scan of the class having run out (a `break` or a fall-through from the give-up test reaches `true`): with more characters than the budget the classes are called disjoint unseen, and a repeat before such a class no longer backtracks ('x+.' on 'axxb xx')", b.loc(trues[0])))
     elif trues:
         out.append(bad("true-only-through-exhaustion", "is_disjoint answers true but the exhaustion test of its scan was not recognised", b.loc(trues[0])))
+    else:
+        # no place stores the constant `true`: the answer is computed (the negation of "some character is common or the
+        # budget ran out"), and the clauses over the paths above say when it is true
+        out.append(ok("true-only-through-exhaustion"))
     hits = [p for p in w.paths if p.end == "return" and any(g.startswith("CodePointInversionList::contains(") for g in summarize(p)[0])]
     if hits and all(summarize(p)[1] == "false" for p in hits):
         out.append(ok("hit-is-false"))
@@ -207,16 +211,22 @@ def opt_unamb_sites(ctx):
     SEQ_ROOT = SEQ_OPT.split("::{closure")[0]
     homes = []
     for caller, bb in ctx.cg.sites.get("op_unambiguous_repeat::UnambiguousRepeat::new", []):
-        root = caller.path.split("::{closure")[0]
+        root = ctx.creator_root(caller.path)
         if root != SEQ_ROOT:
             out.append(bad("constructor|" + root, "UnambiguousRepeat::new is called from %s: the non-backtracking operator may be introduced only by Sequence::optimize" % root, caller.loc(bb)))
-        elif caller.path not in homes:
-            homes.append(caller.path)
+        else:
+            # the function itself first (closures handed to Option / bool adaptors are read as part of its paths),
+            # then the closure that makes the call and the closures around it
+            for cand in [SEQ_ROOT, caller.path] + [x.path for x in ctx.f.bodies if x.path.startswith(SEQ_ROOT + "::{closure")]:
+                if cand not in homes and ctx.body(cand) is not None:
+                    homes.append(cand)
     if not homes:
         return out + [missing(SEQ_OPT)]
     n = 0
     lastok = False
     for hp in homes:
+        if n and lastok:
+            break  # the sites were read in a body tried earlier
         b = ctx.body(hp)
         for sb in [None]:
             w = ctx.walk(b)
